@@ -198,6 +198,12 @@ type Env struct {
 	seenKey *SType
 	depth   int
 	globals func(name string) (binding, bool)
+	record  *readSet // dry run: records heap arrays read
+}
+
+type readSet struct {
+	arrs map[string]*ArrInfo
+	next bool
 }
 
 func (e *Env) with(vars map[string]binding) *Env {
@@ -213,6 +219,9 @@ func (e *Env) with(vars map[string]binding) *Env {
 }
 
 func (e *Env) arr(a *ArrInfo, h *HeapState) string {
+	if e.record != nil {
+		e.record.arrs[a.Name] = a
+	}
 	if v, ok := h.vers[a.Name]; ok {
 		return v
 	}
@@ -347,9 +356,16 @@ func (e *Env) Eval(x Expr) (string, *SType) {
 		var pats []string
 		for _, tr := range x.Triggers {
 			var ts []string
+			valid := true
 			for _, t := range tr {
 				tt, _ := ne.Eval(t)
+				if !validPattern(tt) {
+					valid = false
+				}
 				ts = append(ts, tt)
+			}
+			if !valid {
+				continue
 			}
 			pats = append(pats, ":pattern ("+strings.Join(ts, " ")+")")
 		}
@@ -552,6 +568,9 @@ func (e *Env) evalCall(x *ECall) (string, *SType) {
 		}
 		return "(= " + t + " " + e.zeroLike(ty) + ")", stBool
 	case "allocated":
+		if e.record != nil {
+			e.record.next = true
+		}
 		t, _ := e.Eval(x.Args[0])
 		return "(and (< 0 " + t + ") (< " + t + " " + e.cur.next + "))", stBool
 	case "fresh":
@@ -621,6 +640,9 @@ func (e *Env) evalCall(x *ECall) (string, *SType) {
 		if e.depth > 40 {
 			e.fail("spec function recursion too deep at %s", x.Fn)
 		}
+		if fd.Opaque && e.record == nil && !(e.vc.reveal[fd.Name] || e.vc.revealAll || (e.vc.homePkg != "" && e.vc.homePkg == fd.PkgPath)) {
+			return e.opaqueCall(fd, fctx, rt, x)
+		}
 		vars := map[string]binding{}
 		var lets []string
 		for i, a := range x.Args {
@@ -636,7 +658,7 @@ func (e *Env) evalCall(x *ECall) (string, *SType) {
 			}
 			vars[fd.Params[i].Name] = binding{t, pt}
 		}
-		ne := &Env{w: e.w, vc: e.vc, cur: e.cur, old: e.old, pre: e.pre, vars: vars, ctx: fctx, seen: e.seen, depth: e.depth + 1}
+		ne := &Env{w: e.w, vc: e.vc, cur: e.cur, old: e.old, pre: e.pre, vars: vars, ctx: fctx, seen: e.seen, depth: e.depth + 1, record: e.record}
 		body, _ := ne.Eval(fd.Body)
 		if len(lets) > 0 {
 			body = "(let (" + strings.Join(lets, " ") + ") " + body + ")"
@@ -655,4 +677,97 @@ func (e *Env) typeArg(x Expr) *SType {
 		e.fail("expected a type, got %s", x)
 	}
 	return e.w.resolveType(te.T, e.ctx)
+}
+
+// validPattern: a trigger term must be an application of an uninterpreted or theory function, not a connective.
+func validPattern(t string) bool {
+	if !strings.HasPrefix(t, "(") {
+		return false
+	}
+	head := t[1:]
+	if i := strings.IndexAny(head, " )"); i >= 0 {
+		head = head[:i]
+	}
+	switch head {
+	case "and", "or", "not", "=", "=>", "ite", "let", "forall", "exists", "<", "<=", ">", ">=", "+", "-", "*", "distinct", "!":
+		return false
+	}
+	return true
+}
+
+// opaqueInfo: read set of an opaque predicate, computed by a dry-run evaluation of its body.
+func (w *World) opaqueInfo(fd *FunDef, fctx *ResCtx) *readSet {
+	if w.opaqueRS == nil {
+		w.opaqueRS = map[string]*readSet{}
+	}
+	if rs, ok := w.opaqueRS[fd.Name]; ok {
+		return rs
+	}
+	rs := &readSet{arrs: map[string]*ArrInfo{}}
+	w.opaqueRS[fd.Name] = rs
+	vars := map[string]binding{}
+	for _, p := range fd.Params {
+		vars[p.Name] = binding{"x!" + p.Name, w.resolveType(p.Type, fctx)}
+	}
+	tmp := NewFuncVC(w, "dry")
+	env := &Env{w: w, vc: tmp, cur: &HeapState{vers: map[string]string{}, next: "next!dry"}, vars: vars, ctx: fctx, record: rs}
+	env.Eval(fd.Body)
+	return rs
+}
+
+func (e *Env) opaqueCall(fd *FunDef, fctx *ResCtx, rt *SType, x *ECall) (string, *SType) {
+	S := e.w.S
+	rs := e.w.opaqueInfo(fd, fctx)
+	var names []string
+	for n := range rs.arrs {
+		names = append(names, n)
+	}
+	sortStrings(names)
+	var args, sorts []string
+	for _, n := range names {
+		a := rs.arrs[n]
+		args = append(args, e.arr(a, e.cur))
+		sorts = append(sorts, a.Sort)
+	}
+	if rs.next {
+		args = append(args, e.cur.next)
+		sorts = append(sorts, "Int")
+	}
+	for i, a := range x.Args {
+		t, ta := e.Eval(a)
+		pt := e.w.resolveType(fd.Params[i].Type, fctx)
+		if ta.IsNil {
+			t = e.zeroLike(pt)
+		}
+		args = append(args, t)
+		sorts = append(sorts, pt.Sort(S))
+	}
+	sym := "op!" + fd.Name
+	e.vc.declareFun(sym, sorts, rt.Sort(S))
+	if rs.next && !e.vc.opaqueMono[sym] {
+		// monotone in the allocation counter (proved separately: obligation lemma.mono.<name>)
+		e.vc.opaqueMono[sym] = true
+		var bv, call1, call2 []string
+		for i, so := range sorts {
+			if i == len(names) {
+				continue
+			}
+			v := fmt.Sprintf("m!%d", i)
+			bv = append(bv, "("+v+" "+so+")")
+		}
+		for i := range sorts {
+			if i == len(names) {
+				call1 = append(call1, "n!1")
+				call2 = append(call2, "n!2")
+			} else {
+				call1 = append(call1, fmt.Sprintf("m!%d", i))
+				call2 = append(call2, fmt.Sprintf("m!%d", i))
+			}
+		}
+		bv = append(bv, "(n!1 Int)", "(n!2 Int)")
+		c1 := "(" + sym + " " + strings.Join(call1, " ") + ")"
+		c2 := "(" + sym + " " + strings.Join(call2, " ") + ")"
+		e.vc.axioms = append(e.vc.axioms, "(forall ("+strings.Join(bv, " ")+") (! (=> (and "+c1+" (<= n!1 n!2)) "+c2+") :pattern ("+c1+" "+c2+")))")
+	}
+	return "(" + sym + " " + strings.Join(args, " ") + ")", rt
 }
